@@ -781,3 +781,14 @@ CLAUSES = [
                 "in-place edit (parallel labels, elist, vertices, edges, start list append/assign, delete, rename, recurrent) applied to result / "
                 "original / constructor argument; all earlier snapshots re-examined at the end; k-multiples compared with the reference closure"),
 ]
+
+from props import _defence as DF  # noqa: E402
+CLAUSES.append(
+    Clause("defence_oracle", "oracle", DF.gen_lang, U.bounded(DF.run_defence), DF.judge_defence,
+           site="fsa.FSA (every mutator, accessor and constructor; two automata over the same names in one process)",
+           budget={"quick": 250, "thorough": 4000},
+           what="generic defences: (G1) after every step the object answers like a fresh object built from its current label view; (G2) argument "
+                "collections passed as list / tuple / generator / iterator / dict view / string and checked unmodified, everything the accessors "
+                "and enumerators return is mutated in place and the automaton re-examined, no mutable container shared between automata or with "
+                "caller arguments (identity scan); (G3) an unrelated automaton over the same vertex names and labels (and FSA(), built-ins, free "
+                "and derived automata) is built, edited and queried between the steps, in both orders"))
